@@ -33,8 +33,8 @@ CLAIMS.update({
 
 CLAIMS.update({
     "C11": dict(
-        text="Deductive proof from the real source: AllocOpRewrite.match_and_rewrite as a whole (view of memref.alloc, real get_bound_ops/get_step_ops, IR-term denotation): for every element (witness digits) of every enumerated layout shape (row-major rank<=4; TSL rank x depth <=4 incl. dynamic outer bounds/steps, offsets, 3 element widths) the element's last byte lies inside den(size operand of snax.alloc), for ALL integer steps/bounds/offsets/run-time sizes; StaticAllocs.match_and_rewrite UNBOUNDED as a data-structure invariant with ghost history (aligned, monotone, minimal padding, inside the window, bump == end of range, raising only when the aligned request does not fit) from which disjointness of all ranges follows by induction; create_memref_struct positions. Counter-models replay on real xDSL ops.",
-        note="Trusted: as C03 plus arith denotations and irdl/rewriter/llvm stubs; the induction 'invariant => all ranges ever handed out are disjoint' is a paper lemma. NOT covered: MiniMallocate (lifetimes through casts/nested uses; its solver minimalloc is not installed) and DynamicAllocs (C runtime) - the 'never handed to another buffer while live' clause is therefore only covered for the static mode, where nothing is ever freed.",
+        text="Deductive proof from the real source: AllocOpRewrite.match_and_rewrite as a whole (view of memref.alloc, real get_bound_ops/get_step_ops, IR-term denotation): for every element (witness digits) of every enumerated layout shape (row-major rank<=4; TSL rank x depth <=4 incl. dynamic outer bounds/steps, offsets, 3 element widths) the element's last byte lies inside den(size operand of snax.alloc), for ALL integer steps/bounds/offsets/run-time sizes; StaticAllocs.match_and_rewrite UNBOUNDED as a data-structure invariant with ghost history (aligned, monotone, minimal padding, inside the window, bump == end of range, raising only when the aligned request does not fit) from which disjointness of all ranges follows by induction; create_memref_struct positions; MiniMallocate.match_and_rewrite as a whole over a view of the function body (uses through the cast and nested 0..3 region levels): the lifetime handed to the solver reaches the top-level op holding the LAST use, so - under the ASSUMED contract of minimalloc's Problem.solve() - simultaneously live buffers get disjoint ranges inside the memory window and the dealloc is placed after the last use. Counter-models replay on real xDSL ops where the contract is native.",
+        note="Trusted: as C03 plus arith denotations and irdl/rewriter/llvm stubs; the induction 'invariant => all ranges ever handed out are disjoint' is a paper lemma. ASSUMED (unchecked): the contract of the external minimalloc solver (not installed here; stub pyvc/stubs_src/minimalloc.py states it), so the MiniMallocate contract has no native replay. NOT covered: DynamicAllocs (C runtime), uses of a buffer through values other than the alloc result and its unrealized cast (e.g. subviews of the cast: MiniMallocate itself does not follow them).",
         design_ref="DESIGN.md section 3 C11",
     ),
     "C17": dict(
@@ -43,8 +43,8 @@ CLAIMS.update({
         design_ref="DESIGN.md section 3 C17",
     ),
     "C07": dict(
-        text="Deductive proof from the real source of the LOCAL SOUNDNESS CONDITIONS of the must-analysis (post-fixpoint characterisation): state_intersection, infer_state_of for each owner kind (setup with/without incoming state, scf.if result, scf.for result, loop-carried block argument, other block argument; recursive calls through the function's own contract with arbitrary symbolic states), calc_if_state_delta (incl. its mutation frame), has_accfg_effects (structural recursion through its own contract). States are maps over a small field universe with SYMBOLIC presence and SSA-value identities. The loop-head condition fails on the unchanged tree (known finding F01); the zero-trip loop-result condition was repaired (fix).",
-        note="Trusted: the paper lemma 'local conditions at every state-typed value => the assumed state is a subset of the real state on every execution'; pointwise-in-the-field argument for the 2..3-field universe; SSA identity modelled by symbolic tags. NOT covered: _weave_states_in_region (IR plumbing that threads the states; effects nested in regions).",
+        text="Deductive proof from the real source of the LOCAL SOUNDNESS CONDITIONS of the must-analysis (post-fixpoint characterisation): state_intersection, infer_state_of for each owner kind (setup with/without incoming state, scf.if result, scf.for result, loop-carried block argument, other block argument; recursive calls through the function's own contract with arbitrary symbolic states), calc_if_state_delta (incl. its mutation frame), has_accfg_effects (structural recursion through its own contract). States are maps over a small field universe with SYMBOLIC presence and SSA-value identities. The loop-head condition fails on the unchanged tree (known finding F01); the zero-trip loop-result condition was repaired (fix). _weave_states_in_region (the IR plumbing that threads the states) is under a transfer-function contract over truth maps for the op kinds setup / scf.if / other region op / effecting op / plain op (recursion through its own contract): a state is only threaded into a setup when it is the true reaching state; two defects found there were repaired (fix).",
+        note="Trusted: the paper lemma 'local conditions at every state-typed value => the assumed state is a subset of the real state on every execution'; pointwise-in-the-field argument for the 2..3-field universe; SSA identity modelled by symbolic tags. NOT covered: the scf.for case of _weave_states_in_region (in-place mutation of operands/results of the loop).",
         design_ref="DESIGN.md section 3 C07",
     ),
     "C01": dict(
